@@ -69,6 +69,10 @@ EXPLANATION += (
     ' Round 5: no per-level table is built from one shared mutable object (R-IDIOM/shared-mutable).'
 )
 
+EXPLANATION += (
+    ' Round 6: readable names memoised on the tree object are keyed by level too (R-MEMO/key-complete on attribute-held caches).'
+)
+
 RULE_TEXT = (
     "one obligation per consumed record key, per dataset, per record key "
     "of the codec, per constant relation; non-trivial when the key / "
@@ -96,7 +100,7 @@ def check(ctx):
     check_width(ctx)
     check_csv(ctx, produced)
     from .C10 import check_node_identity
-    check_node_identity(ctx, ('utils.output_utils',), floor=1)
+    check_node_identity(ctx, ('utils.output_utils', 'taxonomy.taxonomy_tree'), floor=1)
 
 
 # ----------------------------------------------------------------------
